@@ -144,10 +144,10 @@ with cl_stat (nm : list N) (flv slv : Z) (s : stat) (st : tstate) {struct s} : b
   | SForNum n vl e1 e2 e3 b l =>
     let s0 := push l st in
     let s1 := tr_exp flv e1 s0 in
-    let s3 := tr_exp flv e3 s1 in
-    let s2 := tr_exp flv e2 s3 in
-    cl_exp nm flv e1 s0 && cl_exp nm flv e3 s1 && cl_exp nm flv e2 s3
-    && cl_block nm flv (slv + 1) b (add_var (mkV n vl RNone false) s2)
+    let s2 := tr_exp flv e2 s1 in
+    let s3 := tr_exp flv e3 s2 in
+    cl_exp nm flv e1 s0 && cl_exp nm flv e2 s1 && cl_exp nm flv e3 s2
+    && cl_block nm flv (slv + 1) b (add_var (mkV n vl RNone false) s3)
   | SForIn ns ls es b l =>
     let s0 := push l st in
     cl_all (map (fun e => (tr_exp flv e, cl_exp nm flv e)) es) s0
